@@ -162,6 +162,14 @@ def run_case(ctx, rng, case):
     if case % 5 == 4:
         return non_plain_case(ctx, rng, case)
     v = gen_plain(rng, rng.choice((0, 1, 2, 2, 3, 4)))
+    if case % 7 == 3:
+        # the same list / dict *object* at several positions of one acyclic value (rows built with `[row] * n`, one
+        # default record under several keys): still a plain value, still denotes exactly itself
+        c = gen_plain(rng, rng.choice((1, 2)), big=False)
+        if not isinstance(c, (list, dict)):
+            c = [c, 0]
+        v = rng.choice(([c, c], {"a": c, "b": c}, [[c] * 2] * 3, [c, [c]], {"k": [c, c], "id": c}, [v, c, v, c]))
+        ctx.count("values_with_shared_containers")
     ctx.distinct(vshape(v), v is not None)
     info = {"value": enc(v)}
     try:
